@@ -1075,3 +1075,93 @@ def check_c13(tier, replay):
             seen.add(k2)
             uniq.append(v)
     return vlib.finish(prop, uniq, known_hits)
+
+
+# ---------------------------------------------------------------------------
+# C11  ServerAuth.tla  <->  live sos_server::Server on loopback
+
+@register("C11")
+def check_c11(tier, replay):
+    prop = "C11"
+    t0 = time.time()
+    wd = vlib.workdir("%s_%s" % (prop, tier))
+    known = vlib.known_keys(prop)
+    scratch = vlib.scratch_base(prop)
+    if replay:
+        vlib.cargo_build()
+        v = json.load(open(replay))
+        d = v.get("detail", v)
+        pfile = os.path.join(wd, "replay.ndjson")
+        with open(pfile, "w") as f:
+            f.write(json.dumps(d["case"]) + "\n")
+        summ = vlib.run_harness([vlib.harness_bin("replay"), "server", pfile, scratch],
+                                env={"VERIF_KNOWN": ",".join(sorted(known))})
+        for x in summ["violations"]:
+            log("REPLAY-DIVERGENCE " + x["summary"][:1500])
+        return 1 if summ["violations"] else 0
+    devs = sorted(d for d in ("AllowBeatsDeny",) if d in known)
+    # (1) the decision model: every reachable (acl, trust history, endpoint, credential)
+    cfg = vlib.render_cfg("MC_ServerAuth.cfg", {"Deviations": "{}", "EmitCases": "FALSE"},
+                          os.path.join(wd, "prop.cfg"))
+    r = vlib.run_tlc("MC_ServerAuth", cfg, prop + "p", timeout_s=600, coverage=False)
+    if r.violated:
+        raise ToolError("intended ServerAuth spec violates %s" % r.violated)
+    cases = []
+    cfg = vlib.render_cfg("MC_ServerAuth.cfg", {"Deviations": dev_set(devs), "EmitCases": "TRUE"},
+                          os.path.join(wd, "emit.cfg"))
+    txt = open(cfg).read().replace("  AcceptOnlyIfTrusted\n", "").replace("  DenyListWins\n", "")
+    open(cfg, "w").write(txt)
+    vlib.run_tlc("MC_ServerAuth", cfg, prop + "e", timeout_s=600, coverage=False, workers=1,
+                 tag_sink=lambda tag, obj: cases.append(obj) if tag == "CASE" else None)
+    # one case per (acl, trust phase, endpoint, credential)
+    uniq = {}
+    for c in cases:
+        k = (c["acl"], len(c["trusted"]), tuple(c["ep"]), c["cred"])
+        uniq[k] = c
+    cases = [uniq[k] for k in sorted(uniq)]
+    if not cases:
+        raise ToolError("TLC emitted no cases")
+    if tier == "quick":
+        import random
+        rng = random.Random(vlib.seed())
+        # every endpoint x credential under 'none'; the other access configs on a sample
+        keep = [c for c in cases if c["acl"] == "none"]
+        rest = [c for c in cases if c["acl"] != "none"]
+        rng.shuffle(rest)
+        cases = keep + rest[:600]
+    vlib.cargo_build()
+    chunks = 8
+    files = [open(os.path.join(wd, "cases_%02d.ndjson" % i), "w") for i in range(chunks)]
+    for i, c in enumerate(cases):
+        files[i % chunks].write(json.dumps(c) + "\n")
+    for f in files:
+        f.close()
+    inputs = [os.path.join(wd, "cases_%02d.ndjson" % i) for i in range(chunks)
+              if os.path.getsize(os.path.join(wd, "cases_%02d.ndjson" % i)) > 0]
+    summ = vlib.run_harness_parallel(
+        lambda p: [vlib.harness_bin("replay"), "server", p, os.path.join(scratch, os.path.basename(p)[:8])],
+        inputs, jobs=8, timeout_s=3000, env={"VERIF_KNOWN": ",".join(sorted(known))})
+    cover = {
+        "states": r.distinct, "transitions": r.generated,
+        "traces_validated_against_impl": summ["steps"],
+        "evaluations": summ["evaluated"], "distinct_nontrivial": len(set(summ["nontrivial_keys"])),
+        "rule": "ServerAuth.tla decides, for every access configuration x trust history (second device trusted, "
+                "then revoked through the device log) x API endpoint x credential form, whether the request may "
+                "be accepted; TLC enumerates the reachable combinations and checks AcceptOnlyIfTrusted, "
+                "DenyListWins, RefusedUnchanged. Each combination is sent as a hand-built HTTP request to a live "
+                "sos_server on loopback (signed over the body, or the path for body-less requests, by the "
+                "trusted / second / unknown / other account's device key, over other bytes, with malformed or "
+                "legacy tokens, without credentials); a request the model refuses must get 400/401/403 and leave "
+                "the account's server state (sync status, device set, files under the data dir) unchanged; a "
+                "request the model accepts must not be rejected by authorisation. Distinct = distinct "
+                "(acl, phase, endpoint, credential).",
+        "samples": summ["samples"][:3], "exhaustive": tier != "quick", "cases": len(cases),
+        "counters": summ["counters"], "deviations_modelled": devs,
+    }
+    assumptions = ["accepted-expected cases are not sent for DELETE /sync/account and the websocket upgrade "
+                   "(they would destroy the fixture / need a websocket client)",
+                   "Ed25519 signature unforgeability"]
+    vlib.write_evidence(prop, tier, "model_checking", cover, assumptions, time.time() - t0,
+                        len(summ["violations"]))
+    known_hits = [dict(k2, **known[k2["key"]]) for k2 in summ["known"] if k2["key"] in known]
+    return vlib.finish(prop, summ["violations"], known_hits)
